@@ -87,7 +87,28 @@ Share == {
   P("share", In3(5, -3, 7) \o <<SLet("Signal", "d", Bin("+", Bin("*", A, B), Bin("*", A, C))), SLet("Signal", "e", Bin("-", Bin("*", A, B), Bin("*", A, C)))>>)
  }
 
-All == Pairs \cup Decl \cup Kinds1 \cup SameRef \cup FormsP \cup Share
+\* logic over comparisons: every tree of 3 and 4 comparison leaves, every mix of && and ||, explicit grouping both ways
+\* (conditions of this shape are folded into one multi-condition decider), as a value and as the condition of a conditional value
+L1 == Bin(">", A, Num(2))  L2 == Bin(">", B, Num(5))  L3 == Bin("<", C, Num(3))  L4 == Bin(">", Num(4), A)
+Logic3 == {Bin(o2, Bin(o1, L1, L2), L3) : o1 \in LogOps, o2 \in LogOps} \cup {Bin(o1, L1, Bin(o2, L2, L3)) : o1 \in LogOps, o2 \in LogOps}
+Logic4 == {Bin(o2, Bin(o1, L1, L2), Bin(o3, L3, L4)) : o1 \in LogOps, o2 \in LogOps, o3 \in LogOps}
+       \cup {Bin(o1, L1, Bin(o2, Bin(o3, L2, L3), L4)) : o1 \in LogOps, o2 \in LogOps, o3 \in LogOps}
+LogicP == {P("logic", In3(5, -3, 7) \o <<R(e)>>) : e \in Logic3 \cup Logic4}
+     \cup {P("logic", In3(5, -3, 7) \o <<R(CondE(e, C))>>) : e \in Logic3}
+     \cup {P("logic", In3(5, -3, 7) \o <<R(Un("!", e))>>) : e \in Logic3}
+     \cup {P("logic", In3(5, -3, 7) \o <<SLet("Signal", "t", e), R(Bin("+", Ref("t"), A))>>) : e \in Logic3}
+\* user identifiers may legally look like the compiler's own node names
+OddNames == <<"arith_total", "decider_hot", "const_k", "wire_merge_x", "mem_v", "bundle_const_1", "arith_1", "decider_2_folded", "anchor_r", "__v1", "r_output_anchor">>
+NamesP == {P("names", In3(5, -3, 7) \o <<SLet("Signal", OddNames[i], e)>>) : i \in {1, 2, 3, 4, 5, 6, 7, 8, 9, 11}, e \in {Bin("+", A, B), Bin(">", A, Num(2)), A, Num(7), Proj(A, TX)}}
+     \cup {P("names", <<SIn("const_in", "signal-A", 5), SIn("arith_in", "", 7), SLet("Signal", "decider_out", Bin("*", Ref("const_in"), Ref("arith_in")))>>),
+           P("names", <<SIn("const_in", "signal-A", 5), SLet("Signal", "arith_1", Bin("+", Ref("const_in"), Num(1))), SLet("Signal", "arith_2", Bin("*", Ref("arith_1"), Num(2)))>>)}
+TwoConsumers == {
+  P("twocons", <<SLet("Signal", "x", Proj(Num(50), TA)), SLet("Signal", "y", Proj(Num(30), TA)), SLet("Signal", "p", Proj(Bin("*", Ref("x"), Ref("y")), TName("signal-P"))),
+                 SLet("Signal", "q", Proj(Bin("-", Ref("x"), Ref("y")), TName("signal-Q")))>>),
+  P("twocons", <<SIn("a", "signal-A", 5), SIn("b", "signal-A", -3), SLet("Signal", "p", Proj(Bin("*", A, B), TName("signal-P"))), SLet("Signal", "q", Proj(Bin("-", A, B), TName("signal-Q")))>>),
+  P("twocons", <<SIn("a", "signal-A", 5), SIn("b", "signal-A", -3), SLet("Signal", "p", Bin("*", A, B)), SLet("Signal", "q", Bin("-", A, B)), SLet("Signal", "w", Bin("/", A, B))>>)
+ }
+All == Pairs \cup Decl \cup Kinds1 \cup SameRef \cup FormsP \cup Share \cup LogicP \cup NamesP \cup TwoConsumers
 Out == SetToSeq(All)
 ASSUME PrintT(<<"NPROGS", Cardinality(All)>>)
 ASSUME JsonSerialize(IOEnv.GEN_OUT, Out)
